@@ -321,3 +321,23 @@ Proof.
   - eapply for_step0_forever; eauto.
   - lia.
 Qed.
+
+(* the FOR statement stores the VALUES of its end and step in the loop record *)
+Lemma for_step_record code st v a b s va vb vs j k :
+  nth_error code (pc st) = Some (SFor v a b s) ->
+  eval (ds st) a = EV va -> eval (ds st) b = EV vb -> eval (ds st) s = EV vs ->
+  in16 va = true -> in16 vb = true -> in16 vs = true ->
+  scan_next (skipn (S (pc st)) code) (S (pc st)) 0 = Some (j, k) ->
+  match nth_error (vars_of_next code j) k with Some v' => Nat.eqb v' v | None => true end = true ->
+  (if vs >=? 0 then va >? vb else vb >? va) = false ->
+  step code st =
+    Go (set_pc (set_fors (set_var st v va)
+                 ({| f_var := v; f_stop := vb; f_step := vs; f_forpos := S (pc st); f_nidx := j; f_nk := k |}
+                  :: fors st)) (S (pc st))) [].
+Proof.
+  intros H Ea Eb Es Ha Hb Hs Hscan Hname Hne. rewrite (step_at code st _ H). cbv zeta.
+  rewrite Ea, Eb, Es. unfold with_int, with_val. rewrite Ha, Hb, Hs, Hscan, Hname. cbn [negb].
+  rewrite for_dir_spec.
+  assert (Hsg : (Z.sgn vs >=? 0) = (vs >=? 0)) by (destruct vs; reflexivity).
+  rewrite Hsg, Hne. reflexivity.
+Qed.
